@@ -42,13 +42,20 @@ theorem c_inv (h2 : (2 : K) ≠ 0) : c⁻¹ = c / 2 := by
   field_simp; rw [pow_two]; exact h.symm
 end powers
 
-/-- `mandel_ring h` closes polynomial identities modulo `h : c * c = 2`:
-normalise, rewrite every power of `c` with the lemmas above, normalise again. -/
+/-- rewrite all powers of `c` using `h : c * c = 2` -/
+macro "c_powers" h:term : tactic =>
+  `(tactic| simp only [c2 $h, c3 $h, c4 $h, c5 $h, c6 $h, c7 $h, c8 $h, c9 $h, c10 $h,
+                        c11 $h, c12 $h, c13 $h, c14 $h, c15 $h, c16 $h])
+
+/-- `mandel_ring h` closes polynomial / rational identities modulo `h : c * c = 2`:
+normalise, rewrite every power of `c` with the lemmas above, normalise again.
+Denominators are cleared by `field_simp` (which uses the `≠ 0` facts in context). -/
 macro "mandel_ring" h:term : tactic =>
-  `(tactic| (ring_nf
-             try simp only [c2 $h, c3 $h, c4 $h, c5 $h, c6 $h, c7 $h, c8 $h, c9 $h, c10 $h,
-                        c11 $h, c12 $h, c13 $h, c14 $h, c15 $h, c16 $h]
-             try ring))
+  `(tactic| (first
+      | ring1
+      | (ring_nf; c_powers $h; first | done | ring1)
+      | (field_simp; first | done | ring1
+                           | (ring_nf; (try c_powers $h); first | done | ring1 | (field_simp; first | done | ring1)))))
 
 /-- Symmetric 3×3 matrix from its six independent entries. -/
 def symMat (a00 a11 a22 a01 a02 a12 : K) : Matrix (Fin 3) (Fin 3) K :=
@@ -62,4 +69,36 @@ def det3 (A : Matrix (Fin 3) (Fin 3) K) : K :=
 theorem det3_eq_det (A : Matrix (Fin 3) (Fin 3) K) : det3 A = A.det := by
   rw [Matrix.det_fin_three]; rfl
 
+end TfelVerif.Mandel
+
+namespace TfelVerif.Mandel
+variable {K : Type} [Field K]
+
+/-- Mandel vector (as the list of stored components) of a 3×3 matrix, 3D. -/
+def mandel3 (c : K) (A : Matrix (Fin 3) (Fin 3) K) : List K :=
+  [A 0 0, A 1 1, A 2 2, c * A 0 1, c * A 0 2, c * A 1 2]
+/-- 2D: the (0,2) and (1,2) entries are not stored. -/
+def mandel2 (c : K) (A : Matrix (Fin 3) (Fin 3) K) : List K :=
+  [A 0 0, A 1 1, A 2 2, c * A 0 1]
+/-- 1D: diagonal only. -/
+def mandel1 (A : Matrix (Fin 3) (Fin 3) K) : List K := [A 0 0, A 1 1, A 2 2]
+
+/-- general 3×3 matrix from its nine entries (row major) -/
+def mat33 (m00 m01 m02 m10 m11 m12 m20 m21 m22 : K) : Matrix (Fin 3) (Fin 3) K :=
+  !![m00, m01, m02; m10, m11, m12; m20, m21, m22]
+
+/-- `mandel_list h` proves an equality between a generated `_all` list and a Mandel
+list of matrix entries, component by component, modulo `h : c * c = 2`. -/
+macro "mandel_list" h:term : tactic =>
+  `(tactic| (
+      simp only [gen_simp, mandel3, mandel2, mandel1, symMat, mat33, det3, Matrix.mul_apply,
+        Matrix.transpose_apply, Fin.sum_univ_three, Matrix.of_apply, Matrix.cons_val',
+        Matrix.cons_val_zero, Matrix.cons_val_one, Matrix.cons_val_two, Matrix.head_cons,
+        Matrix.empty_val', Matrix.cons_val_fin_one, Matrix.head_fin_const,
+        Matrix.add_apply, Matrix.sub_apply, Matrix.smul_apply, Matrix.one_apply, Matrix.diagonal_apply,
+        Matrix.trace, Matrix.diag, smul_eq_mul,
+        List.cons.injEq, and_true]
+      try simp
+      repeat' apply And.intro
+      all_goals (first | rfl | (mandel_ring $h))))
 end TfelVerif.Mandel
